@@ -254,59 +254,74 @@ def check_send(chk, cfg, m, fn):
 
 
 def check_receive(chk, cfg, m, fn):
+    """The receiver tests bit receivep of full_flags and, when it returns a message, clears exactly that bit with one
+    atomic AND.  The test may use the old value returned by the AND itself, or an atomic load made before it: only the
+    receiver side ever clears bits (R5.clear-owner), so a bit it saw set is still set when it clears it."""
     tag = "%s[%s]" % (fn.name, cfg)
     for p in paths.enumerate_paths(fn, m):
         if paths.is_assert_fail_path(p):
             continue
         pathid = "%s path %s" % (tag, "->".join(b.lstrip("%") for b in p.blocks))
         rm = _events_on(p, fn, m, "full_flags", ("rmw",))
-        ld = _events_on(p, fn, m, "full_flags", ("load", "store", "cmpxchg"))
-        if len(rm) != 1 or rm[0].extra != "and" or ld:
+        other = _events_on(p, fn, m, "full_flags", ("load", "store", "cmpxchg"))
+        writes = [e for e in other if e.kind != "load"]
+        loads = [e for e in other if e.kind == "load"]
+        returns_msg = not _is_null(p.ret)
+        if writes or len(rm) > 1 or any(e.extra != "and" for e in rm) or (returns_msg and len(rm) != 1):
             chk.ob("R5.receive", pathid, False,
-                   "receive must test-and-clear its flag with one atomic AND (found RMW %s, other accesses %s): "
+                   "receive must clear its flag with one atomic AND and with nothing else (found RMW %s, other writes %s%s): "
                    "a separate load/store pair loses a send that lands in between" %
-                   ([e.extra for e in rm], [e.kind for e in ld]),
-                   (rm or ld or [p.events[-1]])[0].inst.loc, fn.name)
+                   ([e.extra for e in rm], [e.kind for e in writes], "; a message is returned without clearing its flag"
+                    if returns_msg and not rm else ""),
+                   (rm or writes or [p.events[-1]])[0].inst.loc, fn.name)
             continue
-        e = rm[0]
-        operand = strip_casts(e.val)
-        bit = None
-        if operand[0] == "b" and operand[1] == "xor" and operand[4][0] == "c" and operand[4][2] == (1 << operand[2]) - 1:
-            bit = _one_bit_mask(operand[3])
-        ok = bit is not None and strip_casts(bit)[0] == "ld" and _mq_field(strip_casts(bit)[1], fn, m) == "receivep"
-        chk.ob("R5.receive-mask", pathid, ok,
-               "the AND operand is ~(1 << receivep) (operand %s)" % fmt(e.val)[:80], e.inst.loc, fn.name)
-        # decision on the returned old value
-        dec = None
-        for c, taken, inst in p.conds:
-            if paths.contains(c, lambda x: x == e.res):
-                dec = (c, taken)
-                break
-        if dec is None:
+        rp = None
+        if rm:
+            e = rm[0]
+            operand = strip_casts(e.val)
+            bit = None
+            if operand[0] == "b" and operand[1] == "xor" and operand[4][0] == "c" and operand[4][2] == (1 << operand[2]) - 1:
+                bit = _one_bit_mask(operand[3])
+            ok = bit is not None and strip_casts(bit)[0] == "ld" and _mq_field(strip_casts(bit)[1], fn, m) == "receivep"
+            chk.ob("R5.receive-mask", pathid, ok,
+                   "the AND operand is ~(1 << receivep) (operand %s)" % fmt(e.val)[:80], e.inst.loc, fn.name)
+            rp = strip_casts(bit) if ok else None
+        # observations of the flag word, in program order; the decision must rest on the first one that is tested
+        obs = sorted(loads + rm, key=lambda e: p.events.index(e))
+        vals = [(o, o.res if o.kind == "rmw" else o.val) for o in obs]
+        vals = [(o, v) for o, v in vals if v is not None]
+        deciding = [(c, taken, inst) for c, taken, inst in p.conds if any(paths.contains(c, lambda x, v=v: x == v) for o, v in vals)]
+        anchor = (rm or loads or [p.events[-1]])[0].inst
+        if not deciding:
             chk.ob("R5.receive-decides-on-old", pathid, False,
-                   "the outcome of receive does not depend on the value returned by the atomic AND",
-                   e.inst.loc, fn.name)
+                   "the outcome of receive does not depend on an atomic observation of the flag word (the value returned by the "
+                   "atomic AND, or an atomic load before it)", anchor.loc, fn.name)
             continue
-        # evaluate the decision for bit set / bit clear with receivep = 3
-        rp = strip_casts(bit) if bit is not None else None
+        if rm:
+            late = [o for o, v in vals if o.kind == "load" and p.events.index(o) > p.events.index(rm[0])
+                    and any(paths.contains(c, lambda x, v=v: x == v) for c, t, i in deciding)]
+            if late:
+                chk.ob("R5.receive-decides-on-old", pathid, False, "the flag word is tested after it was cleared", late[0].inst.loc, fn.name)
+                continue
+        if rp is None:
+            for c, taken, inst in deciding:
+                for x in paths.subexprs(c):
+                    if x[0] == "ld" and _mq_field(x[1], fn, m) == "receivep":
+                        rp = x
         try:
-            envs = []
+            good = True
             for flagval in (0, 1 << 3, 0xffffffff ^ (1 << 3), 0xffffffff):
-                env = {e.res: flagval}
+                env = {v: flagval for o, v in vals}
                 if rp is not None:
                     env[rp] = 3
-                envs.append((flagval, eval_concrete(dec[0], env)))
-            taken = dec[1]
-            good = True
-            for flagval, val in envs:
+                on_path = all(paths.cond_holds(cd, env) for cd in deciding)
                 bitset = bool(flagval & (1 << 3))
-                on_path = (val != 0) == bool(taken)
-                if on_path and (bitset == _is_null(p.ret)):
+                if on_path and (bitset != returns_msg):
                     good = False
-            chk.ob("R5.receive-decides-on-old", pathid, good,
-                   "returns a message exactly when bit receivep of the old flag word was set", e.inst.loc, fn.name)
+            chk.ob("R5.receive-decides-on-old", pathid, good and rp is not None,
+                   "returns a message exactly when bit receivep of the observed flag word was set", anchor.loc, fn.name)
         except NoValue:
-            chk.unknown("R5.receive-decides-on-old", pathid, "decision %s not evaluable" % fmt(dec[0])[:100], e.inst.loc)
+            chk.unknown("R5.receive-decides-on-old", pathid, "decision %s not evaluable" % fmt(deciding[0][0])[:100], anchor.loc)
 
 
 def check_observer(chk, cfg, m, fn):
@@ -363,6 +378,14 @@ def run_config(chk, cfg):
             elif mq.acc_field(a) == "receivep":
                 chk.ob("R6.receivep-owner", "%s[%s] %s receivep" % (fn.name, cfg, a.kind), True,
                        "role %s" % ",".join(sorted(rs)), a.inst.loc, fn.name)
+        for a in acc:
+            if mq.acc_field(a) == "full_flags" and "init" not in rs:
+                rmop = a.inst.get("rmwop") if a.kind == "rmw" else None
+                clears = (a.kind == "rmw" and rmop != "or") or (a.kind in ("store", "cmpxchg"))
+                if clears:
+                    chk.ob("R5.clear-owner", "%s[%s] %s full_flags" % (fn.name, cfg, rmop or a.kind), not (rs & {"claim", "send"}),
+                           "flag bits are cleared only on the receiver's side (roles %s): a bit the receiver has seen set stays "
+                           "set until the receiver clears it" % ",".join(sorted(rs)), a.inst.loc, fn.name)
         if "init" in rs:
             continue
         if "claim" in rs:
